@@ -485,16 +485,23 @@ fn pretty_print_rustfmt(tokens: TokenStream) -> String {
     {
         #[cfg(feature = "verif-hooks")]
         verif::point("fmt:spawned");
-        let stdin = proc.stdin.as_mut().unwrap();
-        stdin.write_all(value.as_bytes()).unwrap();
+        // The formatter may exit or be killed before it has read its input.
+        // A failed write is not fatal: fall back to the unformatted tokens below.
+        let written = proc
+            .stdin
+            .as_mut()
+            .map(|stdin| stdin.write_all(value.as_bytes()).is_ok())
+            .unwrap_or(false);
         #[cfg(feature = "verif-hooks")]
         verif::point("fmt:written");
 
-        let output = proc.wait_with_output().unwrap();
+        let output = proc.wait_with_output();
         #[cfg(feature = "verif-hooks")]
         verif::point("fmt:waited");
-        if output.status.success() {
-            return String::from_utf8(output.stdout).unwrap();
+        if let Ok(output) = output {
+            if written && output.status.success() {
+                return String::from_utf8(output.stdout).unwrap();
+            }
         }
     }
     value.to_string()
